@@ -26,11 +26,12 @@ var c01GuardExempt = []GuardExempt{
 }
 
 func checkC01(c *Ctx, r *Report) {
-	r.Explain = "Decides structural necessary conditions of 'a changes request returns exactly the visible changes': (R1) the set of channels a user's feed iterates is the result of filtering the requested channels against the user's available channels (or all requested channels only when there is no user), and every per-channel feed reads the cache obtained for that same channel; (R2) an entry later than the cached high sequence captured at the start of the iteration is not sent (except a revocation triggered at or before it), and that bound only comes from the channel cache's high sequence; (R3) feeds are merged with the proven order SequenceID.Before, the resume position only advances under it, and a waiting (longpoll) request gets the low sequence it arrived with restored before it waits; (R4) lock discipline of the per-channel cache (entries, validity point, doc-id index; late-arrival log) and of the change listener's counters; the per-channel doc-id index is maintained wherever entries leave or enter the entry list; (R5) wake-up protocol — the waiter evaluates its predicate under the notifier's lock inside the loop that waits, and every caller that feeds an entry into the sequence buffer forwards the resulting channel set to the notifier. Not decided: that the merged entries equal the visible set, cache validity-point / back-fill / pruning arithmetic, de-duplication, limit/paging equivalence, liveness."
+	r.Explain = "Decides structural necessary conditions of 'a changes request returns exactly the visible changes': (R1) the set of channels a user's feed iterates is the result of filtering the requested channels against the user's available channels (or all requested channels only when there is no user), and every per-channel feed reads the cache obtained for that same channel; (R2) an entry later than the cached high sequence captured at the start of the iteration is not sent (except a revocation triggered at or before it), and that bound only comes from the channel cache's high sequence; (R3) feeds are merged with the proven order SequenceID.Before, the resume position only advances under it, and a waiting (longpoll) request gets the low sequence it arrived with restored before it waits; (R4) lock discipline of the per-channel cache (entries, validity point, doc-id index; late-arrival log) and of the change listener's counters; the per-channel doc-id index is maintained wherever entries leave or enter the entry list; (R5) wake-up protocol — the waiter evaluates its predicate under the notifier's lock inside the loop that waits, and every caller that feeds an entry into the sequence buffer forwards the resulting channel set to the notifier.; (R6) a back-fill lowers a channel cache's validity point only when the queried range reaches up to it. Not decided: that the merged entries equal the visible set, the remaining cache validity-point / back-fill / pruning arithmetic, de-duplication, limit/paging equivalence, liveness."
 	c01R1(c, r)
 	c01R2R3(c, r)
 	c01R4(c, r)
 	c01R5(c, r)
+	c01R6(c, r)
 }
 
 func c01Worker(c *Ctx) (*ssa.Function, *ssa.Function) {
@@ -591,4 +592,60 @@ func isRequestOptionsCell(root ssa.Value, lit *ssa.Function) bool {
 	}
 	pt, ok := al.Type().(*types.Pointer)
 	return ok && namedOf(pt.Elem()) == "ChangesOptions" && al.Parent() == TopLevel(lit) && TopLevel(lit) != lit
+}
+
+// C01-R6: a back-fill (query result prepended to a channel cache) may move the cache's validity point down only if the range the
+// query covered reaches up to the current validity point; otherwise entries pruned in between (the gap) would be reported as covered
+// by the cache and silently omitted from every later feed.
+func c01R6(c *Ctx, r *Report) {
+	r.Rule("C01-R6", "E2 pathrules", "prependChanges stores the cache's validity point only on the edge where the back-filled range is contiguous with it (changesValidTo >= validFrom)", 2)
+	fn := c.Func("(*db.singleChannelCacheImpl).prependChanges")
+	vf := c.Field("db.singleChannelCacheImpl", "validFrom")
+	if fn == nil || vf == nil || len(fn.Params) < 5 {
+		r.Fail("C01-R6", "anchor prependChanges / validFrom", "-", "function or field not found")
+		return
+	}
+	validTo := fn.Params[4] // (receiver, ctx, changes, changesValidFrom, changesValidTo)
+	isVF := func(v ssa.Value) bool { f, _ := fieldRead(v); return f == vf }
+	isTo := func(v ssa.Value) bool { return v == ssa.Value(validTo) }
+	contiguous := EdgesWhere(fn, func(cond ssa.Value) (bool, bool) {
+		b, ok := cond.(*ssa.BinOp)
+		if !ok {
+			return false, false
+		}
+		switch {
+		case isTo(b.X) && isVF(b.Y):
+			switch b.Op {
+			case token.LSS:
+				return true, false
+			case token.GEQ:
+				return true, true
+			}
+		case isVF(b.X) && isTo(b.Y):
+			switch b.Op {
+			case token.GTR:
+				return true, false
+			case token.LEQ:
+				return true, true
+			}
+		}
+		return false, false
+	})
+	n := 0
+	EachInstr(fn, false, func(in ssa.Instruction) {
+		st, ok := in.(*ssa.Store)
+		if !ok {
+			return
+		}
+		fa, ok := st.Addr.(*ssa.FieldAddr)
+		if !ok || structField(fa.X.Type(), fa.Field) != vf {
+			return
+		}
+		n++
+		okDom := len(contiguous) > 0 && DominatedBy(fn, st, NewAvoid().AddEdge(contiguous...))
+		r.Check("C01-R6", fmt.Sprintf("fn=prependChanges store=validFrom #%d only-if=range-reaches-validity-point", n), c.Pos(st.Pos()), okDom, "dominated by changesValidTo >= validFrom", "a back-fill can lower the cache's validity point although the range it queried ends below it: sequences pruned in between are then treated as cached and never delivered")
+	})
+	if n == 0 {
+		r.Fail("C01-R6", "fn=prependChanges store=validFrom", c.Pos(fn.Pos()), "no store to the validity point found")
+	}
 }
